@@ -787,7 +787,8 @@ class H2Connection:
         )
         try:
             frames = stream.send_headers(
-                headers, self.encoder, end_stream
+                headers, self.encoder, end_stream,
+                priority_present=priority_present
             )
         except ProtocolError:
             if new_stream:
